@@ -212,7 +212,7 @@ struct LinkWorld : World {
         k.assign(K_N, 0);
         k[K_MAXMSG] = mm[kr.below(11)]; k[K_NMSG] = 1 + kr.below(4); k[K_STRATEGY] = kr.below(S_COUNT);
         k[K_FAULTS] = kr.chance(0.7); k[K_CHUNKPCT] = kr.pick(std::vector<int>{0, 20, 50, 90});
-        k[K_BUNDLES] = kr.chance(0.08);   // raw_write also takes bundles; the trigger of a known finding, constructed in few runs only so that it cannot mask other failures
+        k[K_BUNDLES] = kr.chance(0.25);   // raw_write also takes bundles
         int maxmsg = (int)k[K_MAXMSG]; bool faults = k[K_FAULTS];
         int big = g_tier ? 2 : 1; int nw = 1 + (int)pr.below(pr.chance(0.7) ? 8 : 24 * big), nr = 1 + (int)pr.below(pr.chance(0.7) ? 10 : 40 * big);
         std::vector<Op> w, r; int id = 1;
@@ -286,7 +286,7 @@ struct LinkWorld : World {
             bool as_bundle = it.op.kind == W_RAW && (it.op.a[3] & 1) && k.size() > K_BUNDLES && k[K_BUNDLES];
             if (as_bundle) { char bb[560]; size_t bl = rtosc_bundle(bb, sizeof bb, 0x0102030405060708ull + (uint64_t)it.op.a[0], 1, buf); memcpy(buf, bb, bl); len = bl; n_bundles++; if (i + 1 < wops.size()) for (size_t q = i + 1; q < wops.size(); q++) if (wops[q].kind <= W_RAW) bundle_followed = true; }
             Msg m; m.id = (int)it.op.a[0]; m.bytes.assign(buf, buf + len); m.bundle = as_bundle; m.raw = m.bytes; m.raw.resize(len + 4, 0);
-            m.enc_len = len <= maxmsg ? len : 0;      // write/writeArray: encoder refuses; raw_write: the property demands a whole drop
+            m.enc_len = len <= maxmsg ? len + (as_bundle ? 4 : 0) : 0;      // write/writeArray: encoder refuses; raw_write: the property demands a whole drop; a bundle occupies its zero word too (that is what frames it)
             if (len > maxmsg) { if (it.op.kind == W_RAW) n_rawover++; else n_over++; }
             it.msg = (int)msgs.size(); msgs.push_back(m);
         }
@@ -344,6 +344,12 @@ struct LinkWorld : World {
         res.trace_hash = mix64(trace_value(), sched.inter_hash);
         if (sched.budget_hit) { res.budget = true; delete link; return res; }
 
+        if (getenv("VERIF_DUMP")) {   // debugging aid for replays: the recorded history
+            for (size_t i = 0; i < msgs.size(); i++) fprintf(stderr, "msg #%zu id=%d len=%zu footprint=%zu bundle=%d\n", i, msgs[i].id, msgs[i].bytes.size(), msgs[i].enc_len, (int)msgs[i].bundle);
+            std::vector<const Ev *> all; for (auto &e : HW) all.push_back(&e); for (auto &e : HR) all.push_back(&e); std::sort(all.begin(), all.end(), [](const Ev *a, const Ev *b) { return a->inv < b->inv; });
+            Checker c0(HW, HR, msgs, maxmsg, size - 1);
+            for (auto e : all) fprintf(stderr, "%s kind=%d inv=%llu ret=%llu bres=%d msg=%d\n", e->task ? "R" : "W", e->kind, (unsigned long long)e->inv, (unsigned long long)e->ret, (int)e->bres, e->task ? c0.match_msg(e->bytes) : e->wmsg);
+        }
         // ---- oracles
         if (hb.races) { res.cls = "RACE"; res.detail = hb.first_race + " (" + std::to_string(hb.races) + " racing byte accesses)"; }
         else if (peak_bad) { res.cls = "PEAK"; res.detail = peak_detail; }
@@ -359,7 +365,7 @@ struct LinkWorld : World {
             }
         }
         if (n_bundles) stat_add(P_BUNDLE, n_bundles);
-        if (bundle_followed) { stat_add(P_BUNDLE_FOLLOWED); if (!res.cls.empty()) res.taint = "bundle-not-last-in-ring"; note("taint=bundle-not-last-in-ring"); }
+        if (bundle_followed) stat_add(P_BUNDLE_FOLLOWED);   // (was the trigger of a known finding until the ring carried the bundle's zero word)
         // ---- reach probes (from the history; never decide anything)
         {
             long used = 0; (void)used; uint64_t drops = 0;
